@@ -672,14 +672,12 @@ def run(fx, rep, tier):
                 sub.obls.append(o)
         if cfg == "dev":
             sub.rule("C01-R8", "every operator mix is grouped as the grammar prescribes before it is folded: precedence and left "
-                               "associativity of the operator stack (inductive, shared with C06-R6)")
+                               "associativity of the operator stack (inductive, shared with C06-R6) over the priority levels of C06-R1")
             from . import c06
             s8 = type(rep)(rep.prop, rep.tier)
-            pr = c06.priorities(facts)
+            pr = c06.r1_table(facts, s8)  # the priority levels themselves: `**` binds like `^`, not like `*`
             if pr is not None:
                 c06.r6_stack(facts, s8, pr, "quick")
-            else:
-                s8.ob("C01-R8", "anchor:op", False, "grammar::operation::op could not be analysed")
             for o in s8.obls:
                 o["rule"] = "C01-R8"
                 sub.obls.append(o)
